@@ -425,6 +425,11 @@ func CommandKeyIndexes(cmd string, args [][]byte) ([]int, bool) {
 	if lastkey < 0 || lastkey >= len(args) || cmdPos.first <= 0 || cmdPos.step <= 0 {
 		return nil, false
 	}
+	if cmdPos.first-1 > lastkey {
+		// Too few arguments to reach the first key (e.g. BITOP with a single
+		// argument): no keys, and the capacity below would be negative.
+		return nil, false
+	}
 
 	// first/step are described in 1-based form, so convert them to 0-based indexes
 	// before collecting all keys in order.
